@@ -163,7 +163,14 @@ impl<S: SelfEmulation> Accumulator<S> {
 
     /// Accumulates several accumulators together. The resulting acc will
     /// satisfy the invariant iff all the accumulators individually do.
+    ///
+    /// An empty slice yields the neutral accumulator (no terms on either
+    /// side), which satisfies the invariant.
     pub fn accumulate(accs: &[Self]) -> Self {
+        if accs.is_empty() {
+            return Accumulator::new(Msm::from_terms(&[], &[]), Msm::from_terms(&[], &[]));
+        }
+
         let hash_input =
             accs.iter().flat_map(AssignedAccumulator::as_public_input).collect::<Vec<_>>();
 
@@ -316,6 +323,15 @@ impl<S: SelfEmulation> AssignedAccumulator<S> {
         sponge_chip: &S::SpongeChip,
         accs: &[Self],
     ) -> Result<Self, Error> {
+        // An empty slice yields the neutral accumulator (no terms on either
+        // side), which satisfies the invariant.
+        if accs.is_empty() {
+            return Ok(AssignedAccumulator::new(
+                AssignedMsm::empty(),
+                AssignedMsm::empty(),
+            ));
+        }
+
         let hash_input = accs
             .iter()
             .map(|acc| acc_pi_chip.as_public_input(layouter, acc))
